@@ -276,9 +276,18 @@ func (p *Parser) StmtsSeq(r io.Reader) iter.Seq2[*Stmt, error] {
 	p.f = &File{}
 	p.src = r
 	return func(yield func(*Stmt, error) bool) {
+		// yield must not be called again once it returns false.
+		stopped := false
+		yieldStmt := func(s *Stmt, err error) bool {
+			stopped = !yield(s, err)
+			return !stopped
+		}
 		p.rune()
 		p.next()
-		p.stmts(yield)
+		p.stmts(yieldStmt)
+		if stopped {
+			return
+		}
 		if p.err == nil {
 			// EOF immediately after heredoc word so no newline to
 			// trigger the parsing error.
